@@ -4,6 +4,7 @@ CONSTANTS
   Ds <- MCDs
   Divisors <- MCDivisors
   Sigs <- MCSigs
+  SigDen = 4
   Kmax <- MCKmax
   SmallMax <- BigSmallMax
   GridStride <- BigGridStride
